@@ -134,17 +134,17 @@ macro_rules! unk_rule_harness {
     };
 }
 
-//@ c03_unk_rule_n1_s0 {"desc":"gen_unk_words vs the MeCab rule, 1-character sentence","bounds":"n=1,start=0; 3 categories with 1/2/0 entries; 18-bit category sets","symbolic":"category sets, primary category, invoke, group, length 0..15, max_grouping_len (any usize or none), has_matched, entry ids/costs","functions":["UnkHandler::gen_unk_words","UnkHandler::scan_entries","Sentence::compute_groupable"],"unwind":6,"timeout":600}
+//@ c03_unk_rule_n1_s0 {"covers":"any","desc":"gen_unk_words vs the MeCab rule, 1-character sentence","bounds":"n=1,start=0; 3 categories with 1/2/0 entries; 18-bit category sets","symbolic":"category sets, primary category, invoke, group, length 0..15, max_grouping_len (any usize or none), has_matched, entry ids/costs","functions":["UnkHandler::gen_unk_words","UnkHandler::scan_entries","Sentence::compute_groupable"],"unwind":6,"timeout":600}
 unk_rule_harness!(c03_unk_rule_n1_s0, 1, 0);
 //@ c03_unk_rule_n2_s0 {"desc":"gen_unk_words vs the MeCab rule","bounds":"n=2,start=0; 3 categories with 1/2/0 entries","symbolic":"as c03_unk_rule_n1_s0","functions":["UnkHandler::gen_unk_words","UnkHandler::scan_entries","Sentence::compute_groupable"],"unwind":6,"timeout":600}
 unk_rule_harness!(c03_unk_rule_n2_s0, 2, 0);
-//@ c03_unk_rule_n2_s1 {"desc":"gen_unk_words vs the MeCab rule (last position)","bounds":"n=2,start=1","symbolic":"as c03_unk_rule_n1_s0","functions":["UnkHandler::gen_unk_words","UnkHandler::scan_entries","Sentence::compute_groupable"],"unwind":6,"timeout":600}
+//@ c03_unk_rule_n2_s1 {"covers":"any","desc":"gen_unk_words vs the MeCab rule (last position)","bounds":"n=2,start=1","symbolic":"as c03_unk_rule_n1_s0","functions":["UnkHandler::gen_unk_words","UnkHandler::scan_entries","Sentence::compute_groupable"],"unwind":6,"timeout":600}
 unk_rule_harness!(c03_unk_rule_n2_s1, 2, 1);
 //@ c03_unk_rule_n3_s0 {"desc":"gen_unk_words vs the MeCab rule","bounds":"n=3,start=0","symbolic":"as c03_unk_rule_n1_s0","functions":["UnkHandler::gen_unk_words","UnkHandler::scan_entries","Sentence::compute_groupable"],"unwind":6,"timeout":900}
 unk_rule_harness!(c03_unk_rule_n3_s0, 3, 0);
 //@ c03_unk_rule_n3_s1 {"desc":"gen_unk_words vs the MeCab rule (inner position)","bounds":"n=3,start=1","symbolic":"as c03_unk_rule_n1_s0","functions":["UnkHandler::gen_unk_words","UnkHandler::scan_entries","Sentence::compute_groupable"],"unwind":6,"timeout":900}
 unk_rule_harness!(c03_unk_rule_n3_s1, 3, 1);
-//@ c03_unk_rule_n3_s2 {"tier":"thorough","desc":"gen_unk_words vs the MeCab rule","bounds":"n=3,start=2","symbolic":"as c03_unk_rule_n1_s0","functions":["UnkHandler::gen_unk_words","UnkHandler::scan_entries","Sentence::compute_groupable"],"unwind":6,"timeout":900}
+//@ c03_unk_rule_n3_s2 {"covers":"any","tier":"thorough","desc":"gen_unk_words vs the MeCab rule","bounds":"n=3,start=2","symbolic":"as c03_unk_rule_n1_s0","functions":["UnkHandler::gen_unk_words","UnkHandler::scan_entries","Sentence::compute_groupable"],"unwind":6,"timeout":900}
 unk_rule_harness!(c03_unk_rule_n3_s2, 3, 2);
 //@ c03_unk_rule_n4_s0 {"desc":"gen_unk_words vs the MeCab rule, run lengths up to 4","bounds":"n=4,start=0","symbolic":"as c03_unk_rule_n1_s0","functions":["UnkHandler::gen_unk_words","UnkHandler::scan_entries","Sentence::compute_groupable"],"unwind":7,"timeout":1200}
 unk_rule_harness!(c03_unk_rule_n4_s0, 4, 0);
@@ -152,7 +152,7 @@ unk_rule_harness!(c03_unk_rule_n4_s0, 4, 0);
 unk_rule_harness!(c03_unk_rule_n4_s1, 4, 1);
 //@ c03_unk_rule_n4_s2 {"tier":"thorough","desc":"gen_unk_words vs the MeCab rule","bounds":"n=4,start=2","symbolic":"as c03_unk_rule_n1_s0","functions":["UnkHandler::gen_unk_words","UnkHandler::scan_entries","Sentence::compute_groupable"],"unwind":7,"timeout":1200}
 unk_rule_harness!(c03_unk_rule_n4_s2, 4, 2);
-//@ c03_unk_rule_n4_s3 {"tier":"thorough","desc":"gen_unk_words vs the MeCab rule","bounds":"n=4,start=3","symbolic":"as c03_unk_rule_n1_s0","functions":["UnkHandler::gen_unk_words","UnkHandler::scan_entries","Sentence::compute_groupable"],"unwind":7,"timeout":1200}
+//@ c03_unk_rule_n4_s3 {"covers":"any","tier":"thorough","desc":"gen_unk_words vs the MeCab rule","bounds":"n=4,start=3","symbolic":"as c03_unk_rule_n1_s0","functions":["UnkHandler::gen_unk_words","UnkHandler::scan_entries","Sentence::compute_groupable"],"unwind":7,"timeout":1200}
 unk_rule_harness!(c03_unk_rule_n4_s3, 4, 3);
 
 //@ c03_unk_rule_twin {"expect":"fail","desc":"vacuity twin: claims gen_unk_words never emits the full run when group=1; must be refuted","bounds":"n=2,start=0","symbolic":"as c03_unk_rule_n1_s0","functions":["UnkHandler::gen_unk_words"],"unwind":6,"timeout":600,"covers":"none"}
@@ -298,28 +298,116 @@ fn prefix_search(trie: &[u8], post: &[u32], nwords: usize, surfs: &[&[u32]], n: 
     core::mem::forget(input);
 }
 
-//@ c03_prefix_a_ab {"desc":"common_prefix_iterator returns exactly the entries whose surface is a prefix (nested prefixes a, ab)","bounds":"input of 2 characters over a 4-letter alphabet (two lexicon letters, one other, one 3-byte char); generator-built trie","symbolic":"input characters, word parameters, lexicon type","functions":["Lexicon::common_prefix_iterator","WordMap::common_prefix_iterator","Trie::common_prefix_iterator","Postings::ids","crawdad::Trie::common_prefix_search"],"fs":2048,"unwind":6,"timeout":600}
+/// The same claim with the input enumerated: every string of length n over the 4-letter
+/// alphabet is a concrete instance inside one query (symex folds each search completely); the
+/// word parameters and the lexicon type stay symbolic.  With a symbolic input the iterator stack
+/// (`flat_map` over postings) does not fold and a 2-character query takes >10 minutes.
+#[cfg(kani)]
+fn prefix_search_all_inputs(trie: &[u8], post: &[u32], nwords: usize, surfs: &[&[u32]], n: usize) {
+    let (nr, nl) = (3, 3);
+    let mut params = Vec::with_capacity(nwords);
+    let mut feats = Vec::with_capacity(nwords);
+    let mut pcopy = [WordParam::default(); 8];
+    for i in 0..nwords {
+        let p = sym_param(nr, nl);
+        pcopy[i] = p;
+        params.push(p);
+        feats.push(String::new());
+    }
+    let lt = if kani::any() { LexType::System } else { LexType::User };
+    let lex = Lexicon::verif_from_parts(trie, copy_u32(post), params, feats, lt);
+    let mut total_inputs = 1;
+    for _ in 0..n {
+        total_inputs *= 4;
+    }
+    let mut multi = false;
+    for code_idx in 0..total_inputs {
+        // one spare slot: see util::sentence_of
+        let mut input = ['\0'; 4];
+        let mut code = [0u32; 4];
+        let mut x = code_idx;
+        for i in 0..n {
+            input[i] = ALPHA[x % 4];
+            code[i] = ALPHA[x % 4] as u32;
+            x /= 4;
+        }
+        let mut count = [0u8; 8];
+        let mut bad = false;
+        for m in lex.common_prefix_iterator(&input[..n]) {
+            let id = m.word_idx.word_id as usize;
+            if id >= nwords || m.word_idx.lex_type != lt {
+                bad = true;
+            } else {
+                if m.end_char != surfs[id].len() || m.word_param != pcopy[id] {
+                    bad = true;
+                }
+                count[id] += 1;
+            }
+        }
+        assert!(!bad, "a match names a wrong word, end or parameter");
+        let mut total = 0;
+        for w in 0..nwords {
+            let s = surfs[w];
+            let mut is_prefix = s.len() <= n;
+            for j in 0..s.len() {
+                if j < n && code[j] != s[j] {
+                    is_prefix = false;
+                }
+            }
+            assert!(count[w] == is_prefix as u8, "prefix matches differ from 'every entry whose surface is a prefix'");
+            total += count[w];
+        }
+        if total >= 2 {
+            multi = true;
+        }
+    }
+    kani::cover!(multi);
+    core::mem::forget(lex);
+}
+
+//@ c03_prefix_enum_a_ab {"desc":"common_prefix_iterator returns exactly the entries whose surface is a prefix, for every 2-character input over a 4-letter alphabet (nested prefixes a, ab)","bounds":"all 16 inputs of length 2 over {a,b,c,U+3042}; generator-built trie","symbolic":"word parameters, lexicon type","functions":["Lexicon::common_prefix_iterator","WordMap::common_prefix_iterator","Trie::common_prefix_iterator","Postings::ids","crawdad::Trie::common_prefix_search"],"fs":2048,"unwind":6,"unwindset":["prefix_search_all_inputs:70"],"timeout":900}
+#[cfg(kani)]
+#[kani::proof]
+fn c03_prefix_enum_a_ab() {
+    prefix_search_all_inputs(&gen::LEX_A_AB_TRIE, &gen::LEX_A_AB_POST, gen::LEX_A_AB_NWORDS, &gen::LEX_A_AB_SURF, 2);
+}
+
+//@ c03_prefix_enum_homographs {"desc":"all rows sharing a surface are returned (homographs ab,a,ab), for every 2-character input","bounds":"all 16 inputs of length 2; 3 words, two sharing a surface","symbolic":"word parameters, lexicon type","functions":["Lexicon::common_prefix_iterator","WordMap::common_prefix_iterator","Postings::ids"],"fs":2048,"unwind":6,"unwindset":["prefix_search_all_inputs:70"],"timeout":900}
+#[cfg(kani)]
+#[kani::proof]
+fn c03_prefix_enum_homographs() {
+    prefix_search_all_inputs(&gen::LEX_AB_A_AB_TRIE, &gen::LEX_AB_A_AB_POST, gen::LEX_AB_A_AB_NWORDS, &gen::LEX_AB_A_AB_SURF, 2);
+}
+
+//@ c03_prefix_enum_deep_n3 {"tier":"thorough","desc":"prefix search over a 5-word trie of depth 3, for every 3-character input","bounds":"all 64 inputs of length 3; words a,aa,aab,aba,b","symbolic":"word parameters, lexicon type","functions":["Lexicon::common_prefix_iterator","WordMap::common_prefix_iterator","Postings::ids","crawdad::Trie::common_prefix_search"],"fs":2048,"unwind":8,"unwindset":["prefix_search_all_inputs:70"],"timeout":1800}
+#[cfg(kani)]
+#[kani::proof]
+fn c03_prefix_enum_deep_n3() {
+    prefix_search_all_inputs(&gen::LEX_DEEP_TRIE, &gen::LEX_DEEP_POST, gen::LEX_DEEP_NWORDS, &gen::LEX_DEEP_SURF, 3);
+}
+
+//@ c03_prefix_a_ab {"tier":"thorough","core":false,"desc":"common_prefix_iterator returns exactly the entries whose surface is a prefix (nested prefixes a, ab)","bounds":"input of 2 characters over a 4-letter alphabet (two lexicon letters, one other, one 3-byte char); generator-built trie","symbolic":"input characters, word parameters, lexicon type","functions":["Lexicon::common_prefix_iterator","WordMap::common_prefix_iterator","Trie::common_prefix_iterator","Postings::ids","crawdad::Trie::common_prefix_search"],"fs":2048,"unwind":6,"timeout":600}
 #[cfg(kani)]
 #[kani::proof]
 fn c03_prefix_a_ab() {
     prefix_search(&gen::LEX_A_AB_TRIE, &gen::LEX_A_AB_POST, gen::LEX_A_AB_NWORDS, &gen::LEX_A_AB_SURF, 2);
 }
 
-//@ c03_prefix_homographs {"desc":"all rows sharing a surface are returned (homographs ab,a,ab)","bounds":"input of 2 characters; 3 words, two sharing a surface","symbolic":"input characters, word parameters, lexicon type","functions":["Lexicon::common_prefix_iterator","WordMap::common_prefix_iterator","Postings::ids"],"fs":2048,"unwind":6,"timeout":600}
+//@ c03_prefix_homographs {"tier":"thorough","core":false,"desc":"all rows sharing a surface are returned (homographs ab,a,ab)","bounds":"input of 2 characters; 3 words, two sharing a surface","symbolic":"input characters, word parameters, lexicon type","functions":["Lexicon::common_prefix_iterator","WordMap::common_prefix_iterator","Postings::ids"],"fs":2048,"unwind":6,"timeout":600}
 #[cfg(kani)]
 #[kani::proof]
 fn c03_prefix_homographs() {
     prefix_search(&gen::LEX_AB_A_AB_TRIE, &gen::LEX_AB_A_AB_POST, gen::LEX_AB_A_AB_NWORDS, &gen::LEX_AB_A_AB_SURF, 2);
 }
 
-//@ c03_prefix_deep_n3 {"desc":"prefix search over a 5-word trie of depth 3","bounds":"input of 3 characters; words a,aa,aab,aba,b","symbolic":"input characters, word parameters, lexicon type","functions":["Lexicon::common_prefix_iterator","WordMap::common_prefix_iterator","Postings::ids","crawdad::Trie::common_prefix_search"],"fs":2048,"unwind":8,"timeout":900}
+//@ c03_prefix_deep_n3 {"tier":"thorough","core":false,"desc":"prefix search over a 5-word trie of depth 3","bounds":"input of 3 characters; words a,aa,aab,aba,b","symbolic":"input characters, word parameters, lexicon type","functions":["Lexicon::common_prefix_iterator","WordMap::common_prefix_iterator","Postings::ids","crawdad::Trie::common_prefix_search"],"fs":2048,"unwind":8,"timeout":900}
 #[cfg(kani)]
 #[kani::proof]
 fn c03_prefix_deep_n3() {
     prefix_search(&gen::LEX_DEEP_TRIE, &gen::LEX_DEEP_POST, gen::LEX_DEEP_NWORDS, &gen::LEX_DEEP_SURF, 3);
 }
 
-//@ c03_prefix_full2_n3 {"tier":"thorough","desc":"prefix search over all 6 surfaces of length <=2 over two letters","bounds":"input of 3 characters","symbolic":"input characters, word parameters, lexicon type","functions":["Lexicon::common_prefix_iterator","WordMap::common_prefix_iterator","Postings::ids"],"fs":2048,"unwind":8,"timeout":1200}
+//@ c03_prefix_full2_n3 {"tier":"thorough","core":false,"desc":"prefix search over all 6 surfaces of length <=2 over two letters","bounds":"input of 3 characters","symbolic":"input characters, word parameters, lexicon type","functions":["Lexicon::common_prefix_iterator","WordMap::common_prefix_iterator","Postings::ids"],"fs":2048,"unwind":8,"timeout":1200}
 #[cfg(kani)]
 #[kani::proof]
 fn c03_prefix_full2_n3() {
